@@ -96,10 +96,9 @@ def _run(tier, rep, sc):
         # the histories that change N around a BS segment once more under ASan + UBSan
         try:
             common.build("asan")
-            asan_rt = os.popen("clang -print-file-name=libclang_rt.asan-x86_64.so").read().strip()
             out2 = os.path.join(sc, "out_asan.json")
             r2 = common.run_worker(os.path.join(HERE, "w_c01.py"), [tf, out2, str(common.seed()), tier], variant="asan",
-                                   env={"LD_PRELOAD": asan_rt, "ASAN_OPTIONS": "detect_leaks=0", "C01_SWITCH_ONLY": "60"}, timeout=3000)
+                                   env=dict(common.asan_env(), C01_SWITCH_ONLY="60"), timeout=3000)
             if r2.returncode != 0 and "Sanitizer" in r2.stderr:
                 rep.violation("asan:switch", "sanitizer report while executing integrator-switch histories", {"stderr": r2.stderr[-3000:]})
             elif r2.returncode != 0:
